@@ -568,6 +568,14 @@ def enum_fixed(tier):
             yield {'nclients': 3, 'rules': [{}],
                    'ops': [['ownr', 0, 0], ['burst', [uc], [[0, 0]]], ['takeover', 1, 0], ['burst', [uc], [[0, 0]]]] + leaving +
                           [closing, ['burst', [uc], [[0, 0]]], ['own', 1, 0], ['burst', [uc], [[0, 0]]]]}
+    # a waiter replaces the owner: the first waiter, the second one (somebody queued ahead of it), with the displaced owner
+    # leaving or staying; where do calls to the name go afterwards?
+    for taker in (1, 2):
+        for after in ([], [['disconnect', 0]], [['disown', taker, 0]]):
+            yield {'nclients': 4, 'rules': [{}],
+                   'ops': [['ownr', 0, 0], ['wait', 1, 0], ['wait', 2, 0], ['burst', [dict(uc, **{'from': 3})], [[0, 0]]],
+                           ['takeover', taker, 0], ['burst', [dict(uc, **{'from': 3})], [[0, 0]]]] + after +
+                          [['burst', [dict(uc, **{'from': 3})], [[0, 0]]]]}
     # rules naming a sender by well-known name: subscribed before anybody owns the name, or while somebody else does
     for rule in ({'type': 'signal'}, {'member': 'Sig'}, {}):
         bc0 = dict(bc, **{'from': 0})
